@@ -17,7 +17,10 @@ VARIABLES hist,
 gvars == <<title, section, subsection, lists, path, cookies, smc, ret, last, ghost, markers, hist, smcA>>
 
 Snapshot == [title |-> title', section |-> section', subsection |-> subsection',
-             lists |-> lists', path |-> path', cookies |-> cookies', ret |-> ret']
+             lists |-> lists', path |-> path', cookies |-> cookies', ret |-> ret',
+             \* the stamps every message recorded by this call must carry
+             stamp_title |-> StampT(title'), stamp_section |-> StampS(section'),
+             stamp_subsection |-> StampS(subsection')]
 
 Act(op, a, b, c, d, nw) == [op |-> op, a |-> a, b |-> b, c |-> c, d |-> d, nw |-> nw]
 Log(act, asis) == hist' = Append(hist, [act |-> act, st |-> Snapshot, asis_num |-> asis])
